@@ -6,7 +6,10 @@ def world_check(PROP, THEOREMS, tier, seed, monitors, n_quick=250, n_thorough=25
                 clean_oracle=False, replay=None, note=None, scen_gen=None):
     run = Run(PROP, tier, seed, "proof")
     rng = random.Random(seed)
-    info, problems = proof_gate(PROP, THEOREMS, extra_modules=list(extra_modules), thorough=(tier == "thorough"))
+    if THEOREMS and isinstance(THEOREMS[0], str):
+        info, problems = proof_gate_multi(THEOREMS, thorough=(tier == "thorough"))
+    else:
+        info, problems = proof_gate(PROP, THEOREMS, extra_modules=list(extra_modules), thorough=(tier == "thorough"))
     for p in problems:
         run.tie("proof gate", p)
     drv = build_driver()
